@@ -1792,7 +1792,11 @@ def format_bytes(n: int) -> str:
         ("ki", 2**10),
     ):
         if n >= k * 0.9:
-            return f"{n / k:.2f} {prefix}B"
+            value = n / k
+            if value >= 999.995 and n < 1024 * k:
+                # 1000 PiB up to 2**60: drop one decimal to stay within 10 characters
+                return f"{value:.1f} {prefix}B"
+            return f"{value:.2f} {prefix}B"
     return f"{n} B"
 
 
